@@ -380,6 +380,54 @@ func transformFile(fset *token.FileSet, path string, src []byte, kind string, in
 			}
 			return true
 		})
+	case "reverse-select":
+		// the order of the cases of a select has no meaning
+		ast.Inspect(f, func(nd ast.Node) bool {
+			sel, ok := nd.(*ast.SelectStmt)
+			if !ok || len(sel.Body.List) < 2 {
+				return true
+			}
+			l := sel.Body.List
+			for i, j := 0, len(l)-1; i < j; i, j = i+1, j-1 {
+				l[i], l[j] = l[j], l[i]
+			}
+			n++
+			return true
+		})
+	case "reverse-typeswitch":
+		// the cases of a type switch over distinct concrete (pointer) types are mutually exclusive
+		ast.Inspect(f, func(nd ast.Node) bool {
+			ts, ok := nd.(*ast.TypeSwitchStmt)
+			if !ok || len(ts.Body.List) < 2 {
+				return true
+			}
+			okAll := true
+			for _, cs := range ts.Body.List {
+				cc := cs.(*ast.CaseClause)
+				for _, e := range cc.List {
+					if _, isStar := e.(*ast.StarExpr); !isStar {
+						okAll = false // interface types or nil: order may matter
+					}
+				}
+				for _, b := range cc.Body {
+					ast.Inspect(b, func(m ast.Node) bool {
+						if br, ok := m.(*ast.BranchStmt); ok && br.Tok == token.FALLTHROUGH {
+							okAll = false
+						}
+						return true
+					})
+				}
+			}
+			if !okAll {
+				return true
+			}
+			l := ts.Body.List
+			for i, j := 0, len(l)-1; i < j; i, j = i+1, j-1 {
+				l[i], l[j] = l[j], l[i]
+			}
+			n++
+			return true
+		})
 	case "demorgan":
 		// if a || b  ->  if !(!(a) && !(b));   if a && b -> if !(!(a) || !(b))   (if conditions only)
 		ast.Inspect(f, func(nd ast.Node) bool {
@@ -553,7 +601,7 @@ func runBenignFuzz(repo, verif string, only string) int {
 			}
 		}
 	}
-	kinds := []string{"swap-eq", "flip-rel", "negate-if", "for-cond", "noop", "rename", "switch-to-if", "if-to-switch", "demorgan", "swap-add", "unnest-else", "nest-else"}
+	kinds := []string{"swap-eq", "flip-rel", "negate-if", "for-cond", "noop", "rename", "switch-to-if", "if-to-switch", "demorgan", "swap-add", "unnest-else", "nest-else", "reverse-select", "reverse-typeswitch"}
 	var variants []benignVariant
 	tmp, err := os.MkdirTemp("", "benignfuzz")
 	if err != nil {
